@@ -60,6 +60,7 @@ def run(ctx: Context) -> None:
     ctx.rule(r2_sqlite)
     ctx.rule(r3_text_path, pl)
     ctx.rule(r4_function_of_arguments, pl)
+    ctx.rule(r4b_append_modes, pl)
     ctx.rule(r5_picklable)
     v = CalibrateView(ctx.prog)
     ctx.rule(c14.r4_checkpoint_on_every_exit, v, "R6")
@@ -494,6 +495,44 @@ def r4_function_of_arguments(ctx: Context, pl: Plumbing) -> None:
             if "checkpoint_path.exists" in tgt:
                 continue  # directory creation only
             ctx.notes.setdefault("exists_guards", []).append(tgt)
+
+
+def r4b_append_modes(ctx: Context, pl: Plumbing) -> None:
+    """Text files of the checkpoint are rewritten whole: no writer below save_calibrator_state appends to (or updates in place) what the folder held.
+    Independent of the field plumbing - it looks at every function reachable from the save."""
+    prog = ctx.prog
+    seen = {pl.save.qualname: pl.save}
+    work = [pl.save]
+    while work:
+        f = work.pop()
+        for c in calls_in(f.node, scope_only=False):
+            for t in prog.resolve_call(f, c):
+                if isinstance(t, FuncInfo) and t.qualname not in seen:
+                    seen[t.qualname] = t
+                    work.append(t)
+    n = 0
+    for f in seen.values():
+        for c in calls_in(f.node, scope_only=False):
+            fn = dotted(c.func) or ""
+            last = fn.split(".")[-1] if fn else (c.func.attr if isinstance(c.func, ast.Attribute) else "")
+            mode = None
+            if last in ("to_csv", "to_json", "savetxt", "to_string"):
+                mode = kwarg(c, "mode")
+                n += 1
+            elif last == "open":
+                mode = kwarg(c, "mode", 1 if fn in ("open", "io.open") else 0)
+                n += 1
+            else:
+                continue
+            if mode is None:
+                continue
+            txt = mode.value if isinstance(mode, ast.Constant) and isinstance(mode.value, str) else None
+            if txt is None:
+                continue
+            ctx.check(not ("a" in txt or "+" in txt), "R4.truncating", f"{f.name}:{last}:mode={txt}", "text files are rewritten from scratch",
+                      f"`{' '.join(src(c).split())[:80]}` opens a checkpoint file with mode '{txt}': rows a previous run left in the folder stay in the file, "
+                      "so the stored table is not the state that was saved", f, c)
+    ctx.ok("R4.truncating", "save:text-writers", f"{n} text writer call(s) below save_calibrator_state: none appends or updates in place")
 
 
 # ---------------------------------------------------------------------------------------------- R5
